@@ -1,6 +1,7 @@
 package prop
 
 import (
+	"regexp"
 	"fmt"
 	"net/http"
 	"os"
@@ -191,6 +192,11 @@ func panConverge(prop string) RunFunc {
 		o := PanOpts{Front: []string{"do-approve", "drc"}[tp.Next(2)], Timeout: 60, Backup: tp.Chance(1, 5)}
 		r := c.LivePan(cs.Files, node, o)
 		fail := func(key, msg string) *Failure {
+			// A service-group that exists on the device gets its new member
+			// list by action=set, which merges: name that circumstance.
+			if sgSetOnExisting(r.Node.Transcr, before.Cand) && !strings.HasPrefix(key, "tool-panic") && key != "no-exit" {
+				key += "|service-group-members-set"
+			}
 			in := cs.Input()
 			in["stderr"] = strings.Split(r.Res.Stderr+"\n"+r.RunLog, "\n")
 			var reqs []string
@@ -413,4 +419,30 @@ func between2(s, a, b string) string {
 	}
 	v, _, _ := strings.Cut(r, b)
 	return v
+}
+
+var sgSetRE = regexp.MustCompile(`action=set&.*/vsys/entry\[@name='([^']*)'\]/service-group/entry\[@name='([^']*)'\]/members`)
+
+// sgSetOnExisting: some request sets the member list of a service-group the
+// device already had.
+func sgSetOnExisting(tr []panosdev.Rec, before *panosdev.X) bool {
+	for _, rec := range tr {
+		if rec.Class != "script" {
+			continue
+		}
+		m := sgSetRE.FindStringSubmatch(unescape(rec.Req))
+		if m == nil {
+			continue
+		}
+		for _, v := range panVsysOf(before) {
+			if v.Name == m[1] {
+				for _, g := range v.Path("service-group").KidsOf("entry") {
+					if g.Name == m[2] {
+						return true
+					}
+				}
+			}
+		}
+	}
+	return false
 }
